@@ -157,8 +157,8 @@ def expect(rep: Report, rule: str, fi: FuncInfo, effs: list[Eff], what: str,
            *, name: str, recv: str = "", args: tuple[str, ...] = (),
            must: Iterable[Guard] = (), may: Iterable[Guard] = (),
            kind: str = "call", alt_args: Iterable[tuple[str, ...]] = (),
-           why: str = "", select: Optional[Callable[[Eff], bool]] = None
-           ) -> Optional[Eff]:
+           why: str = "", select: Optional[Callable[[Eff], bool]] = None,
+           any_guard: bool = False) -> Optional[Eff]:
     """Exactly one effect (kind, name, recv, args) exists; it runs under
     every condition of ``must`` and under no condition outside ``must`` +
     ``may``."""
@@ -174,8 +174,8 @@ def expect(rep: Report, rule: str, fi: FuncInfo, effs: list[Eff], what: str,
         f"{kind} {', '.join(args)}"
     if ok:
         gs = hits[0].guards
-        ok = all(m in gs for m in must) and all(g in must or g in may
-                                               for g in gs)
+        ok = all(m in gs for m in must) and (any_guard or all(
+            g in must or g in may for g in gs))
         detail = f"{shown[:300]} runs when {gs or 'always'}; required " \
                  f"{must or 'always'}"
     else:
